@@ -35,6 +35,21 @@ s=s.replace('\tvar cleaned []error\n\tset := make(map[string]bool)\n\tfor _, err
 assert 'dup := seen[msg]' in s
 s=s.replace('func (p *parser) restore(pt savepoint) {\n\tif pt.offset == p.pt.offset {\n\t\treturn\n\t}\n\tp.pt = pt\n}','func (p *parser) restore(pt savepoint) {\n\tif pt.offset != p.pt.offset {\n\t\tp.pt = pt\n\t}\n}')
 open('grammar/grammar.go','w').write(s)
+# 4. more behaviour-preserving edits where the newer checks look: the result
+#    slice of Execute starts with a smaller capacity; Evaluate builds its option
+#    list with make+append; Parse goes through a local variable
+s=open('filter.go').read()
+s=s.replace('filtered := reflect.MakeSlice(rtype, 0, rvalue.Len())','filtered := reflect.MakeSlice(rtype, 0, (rvalue.Len()+1)/2)')
+assert '(rvalue.Len()+1)/2' in s
+open('filter.go','w').write(s)
+s=open('bexpr.go').read()
+s=s.replace('\topts := []Option{\n\t\tWithTagName(eval.tagName),\n\t\tWithHookFn(eval.valueTransformationHook),\n\t}\n','\topts := make([]Option, 0, 3)\n\topts = append(opts, WithTagName(eval.tagName))\n\topts = append(opts, WithHookFn(eval.valueTransformationHook))\n')
+assert 'make([]Option, 0, 3)' in s
+open('bexpr.go','w').write(s)
+s=open('grammar/grammar.go').read()
+s=s.replace('\treturn newParser(filename, b, opts...).parse(g)\n','\tp := newParser(filename, b, opts...)\n\tval, err := p.parse(g)\n\treturn val, err\n')
+assert 'val, err := p.parse(g)' in s
+open('grammar/grammar.go','w').write(s)
 PY
 gofmt -l . ; go build ./... && go test -vet=off -count=1 ./... >/dev/null 2>&1 && echo "controls build and pass the suite" || { echo "controls broke the build"; exit 2; }
 git diff --stat | tail -1
